@@ -130,7 +130,7 @@ func buildIter(params json.RawMessage) explore.Scenario {
 			})
 			if p.HaltAt >= 0 {
 				vs.GoNamed("halter", func() {
-					vs.WaitUntil("halt-release", func() bool { return vs.Step() >= p.HaltAt })
+					vs.WaitStep("halt-release", p.HaltAt)
 					if len(got) > 0 {
 						seenAtHalt = got[len(got)-1].Depth
 					}
